@@ -185,11 +185,17 @@ impl ThreadPool {
             .expect("worker thread must still exist - thread pool cannot operate without workers");
         }
 
-        for rx in result_rxs {
-            results.push(
-                rx.recv()
-                    .expect("worker thread failed to send result - did it panic?"),
-            );
+        // Wait for every worker to either deliver its result or drop its sender (which happens
+        // only after its copy of `f` has finished or unwound) before inspecting any outcome.
+        // The lifetime extension above is only sound if no worker can still be executing `f`
+        // when we return or unwind, so we must not panic on the first failure we see.
+        let outcomes = result_rxs
+            .into_iter()
+            .map(oneshot::Receiver::recv)
+            .collect::<Vec<_>>();
+
+        for outcome in outcomes {
+            results.push(outcome.expect("worker thread failed to send result - did it panic?"));
         }
 
         results.into_boxed_slice()
